@@ -400,7 +400,9 @@ class ESME:
         # and writing can be resumed.
         # When there is nothing to wait for, the drain() returns immediately.
         # ref: https://docs.python.org/3/library/asyncio-stream.html#asyncio.StreamWriter.drain
-        assert isinstance(self._writer, StreamWriter)  # For type checkers
+        if self._writer is None:
+            # The connection was shut down while this message was waiting (bound gate, hook)
+            raise ConnectionError('Connection to SMSC is closed')
         self._writer.write(pdu)
         async with self._drain_lock:
             # see: https://github.com/komuw/naz/issues/114
